@@ -18,8 +18,11 @@ Section Quadric.
   (** the same when the bounds are the literals -1, 1 (the assertion cannot fail) *)
   Definition fclamp11 (x : K) : K :=
     let x := if x <? - n1 then - n1 else x in if x >? n1 then n1 else x.
-  (** [f64::to_degrees]: [self * (180.0 / PI)] *)
-  Definition to_degrees (rad : K) : K := rad * (nofZ 180 / npi).
+  (** [Float::to_degrees].  f64: [self * (180.0 / PI)].  f32: the standard library multiplies by the LITERAL
+      57.2957795130823208767981548141051703_f32 = 15019745 * 2^-18 (0x42652ee1), the correctly rounded 180 / pi, which is one
+      ulp above the binary32 quotient 180 / PI (0x42652ee0); the working precision is told from [neps] (2^-23 only in binary32). *)
+  Definition deg_per_rad : K := if neps =? nofQ 1 8388608 then nofQ 15019745 262144 else nofZ 180 / npi.
+  Definition to_degrees (rad : K) : K := rad * deg_per_rad.
   (** [(-EPSILON..=360.+EPSILON).contains(&phi_max)], then [clamp(0,360).to_radians()] *)
   Definition phi_in_range (phi_max : K) : bool := (- neps <=? phi_max) && (phi_max <=? nofZ 360 + neps).
   Definition phi_to_radians (site : N) (phi_max : K) : res K :=
